@@ -5,6 +5,8 @@ use std::sync::Arc;
 use serde_json::{Value, json};
 
 use crate::e1::{self, Case, Spec, WorkerOut};
+#[allow(unused_imports)]
+use ql::ex::Op;
 use crate::evid::{Stats, Viol};
 use crate::mon::Flags;
 use crate::progs;
@@ -230,6 +232,48 @@ pub fn e1_spec(id: &str, tier: &str) -> Option<Spec> {
             assumptions: {
                 let mut a = base_assumptions();
                 a.push("operational oracle: a call to a function without cycle handling made while that function is live on the caller's stack must end the request in a cycle panic; a returned value must equal the least fixpoint of all equations; a cycle panic without an observed re-entry (e.g. during validation) is accepted".into());
+                a
+            },
+        }),
+        "C22" => Some(Spec {
+            id: "C22",
+            programs: {
+                let mut v = vec![
+                    progs::p3(1, 0, 1),
+                    progs::p3(5, 5, 3),
+                    progs::p3(4, 6, 6),
+                    progs::p3(4, 2, 7),
+                    progs::p3(3, 7, 1),
+                    progs::p3(1, 1, 8),
+                    progs::p3(2, 4, 9),
+                ];
+                v.extend(progs::struct_set());
+                v.extend(progs::churn_struct_set());
+                v.push(progs::intern_prog(1));
+                v.extend(progs::specify_set().into_iter().take(1));
+                for k in [ql::ex::Kind::Fx, ql::ex::Kind::Fxj, ql::ex::Kind::Fb] {
+                    v.push(progs::cyc2(k));
+                    v.push(progs::nested3(k));
+                    v.push(progs::cond_cycle(k));
+                }
+                v
+            },
+            depth: if quick { 2 } else { 3 },
+            alphabet: Box::new(|p: &ql::ex::Program| {
+                let mut a = vec![Op::Set(0, 1), Op::Set(1, 1), Op::Set(0, 0)];
+                for n in 0..p.nodes.len() as u8 {
+                    a.push(Op::Q(n));
+                }
+                a
+            }),
+            flags: Flags { values: true, ..Flags::default() },
+            rule: "every history of the stated depth (followed by a new revision and a request of every node) x every user-code callback point reached in it (function body entry / between reads / exit, cycle_initial, cycle_fn, cycle_result, PartialEq of results and tracked fields, Hash/Eq of identity and interned fields, heap_size, every event callback): the history is re-run on a fresh database with a marker panic injected at exactly that point. states = histories, transitions = injected runs, a run is non-trivial when the injection fired.",
+            cap_s: cap,
+            config: "seq",
+            assumptions: {
+                let mut a = base_assumptions();
+                a.push("injection is suppressed while the thread is already unwinding (a second panic would abort the process)".into());
+                a.push("in the revision of the panic a function that depends on a cycle may answer with a propagated panic; in any later revision every answer must equal the reference".into());
                 a
             },
         }),
@@ -717,6 +761,9 @@ pub fn meta(id: &str, tier: &str) -> Option<Meta> {
 
 pub fn worker(id: &str, tier: &str, w: usize, n: usize) -> WorkerOut {
     if let Some(s) = e1_spec(id, tier) {
+        if id == "C22" {
+            return e1::run_fault_worker(&s, w, n);
+        }
         return e1::run_worker(&s, w, n);
     }
     #[cfg(feature = "conc")]
@@ -750,8 +797,20 @@ fn rerun_e1(id: &str, v: &Viol) -> Option<Option<(String, String, usize)>> {
     Some(r.viol)
 }
 
+fn rerun_fault(v: &Viol) -> Option<Option<(String, String, usize)>> {
+    let case: Case = serde_json::from_value(v.case.get("case")?.clone()).ok()?;
+    let inject = v.case.get("inject")?.as_i64()?;
+    let mut st = Stats::default();
+    let prog = Arc::new(case.program);
+    Some(e1::run_fault_case(&prog, &case.history, inject, &mut st).0)
+}
+
 pub fn confirm(id: &str, v: &Viol) -> Confirm {
     match v.case.get("engine").and_then(|e| e.as_str()) {
+        Some("e1-fault") => match (rerun_fault(v), rerun_fault(v)) {
+            (Some(Some(x)), Some(Some(y))) if x.0 == y.0 => Confirm::Reproduced,
+            _ => Confirm::NotReproduced,
+        },
         Some("e1") => {
             // replay twice: the same case must fail both times with the same oracle
             let a = rerun_e1(id, v);
@@ -777,6 +836,21 @@ pub fn confirm(id: &str, v: &Viol) -> Confirm {
 pub fn replay(id: &str, path: &str) -> i32 {
     let v = crate::evid::read_replay(std::path::Path::new(path));
     match v.case.get("engine").and_then(|e| e.as_str()) {
+        Some("e1-fault") => match rerun_fault(&v) {
+            Some(Some((oracle, msg, step))) => {
+                println!("VIOLATION property={id} replay={path}");
+                println!("  oracle={oracle} step={step}: {msg}");
+                1
+            }
+            Some(None) => {
+                println!("replay of {path}: property {id} holds on this case");
+                0
+            }
+            None => {
+                eprintln!("MACHINERY: cannot interpret replay file {path}");
+                2
+            }
+        },
         Some("e1") => match rerun_e1(id, &v) {
             Some(Some((oracle, msg, step))) => {
                 println!("VIOLATION property={id} replay={path}");
